@@ -34,6 +34,7 @@ func main() {
 	dump := flag.String("dump", "", "debug: dump facts for function name")
 	pathq := flag.String("path", "", "debug: from,to[,stop] call-graph path")
 	noself := flag.Bool("noselftest", false, "thorough: skip the mutation self-test")
+	survey := flag.String("survey", "", "debug: list generic rule candidates (acc)")
 	flag.Parse()
 	if *tier == "" {
 		*tier = os.Getenv("VERIF_TIER")
@@ -43,6 +44,15 @@ func main() {
 	}
 	seed, _ := strconv.Atoi(os.Getenv("VERIF_SEED"))
 
+	if *survey != "" {
+		e, err := Load(*repo, defaultConfig)
+		if err != nil {
+			fmt.Println(err)
+			os.Exit(2)
+		}
+		runSurvey(e, *survey)
+		return
+	}
 	if *pathq != "" {
 		e, err := Load(*repo, defaultConfig)
 		if err != nil {
